@@ -76,6 +76,12 @@ func (ex *Exec) sortSlice(st *State, in ssa.Instruction, c *ssa.CallCommon) (Val
 	// sorted: no later element is less than an earlier one
 	lji, _ := ex.pureEval(st, f, []Value{Sc{j}, Sc{i}})
 	st.assume(Term{fmt.Sprintf("(forall ((i!sl Int) (j!sl Int)) %s)", tImp(tAnd(inR, tLt(i, j)), tNot(asSc(lji, nil).T)).S), SBool})
+	// the inverse permutation (a permutation of a finite range is a bijection; stated explicitly because surjectivity
+	// does not follow first-order from injectivity)
+	inv := ex.ctx.Fresh("sortinv", arrSort(SInt, SInt))
+	st.assume(Term{fmt.Sprintf("(forall ((k!sl Int)) %s)", tImp(inK, tAnd(tLe(intLit(0), tSelect(inv, k, SInt)), tLt(tSelect(inv, k, SInt), s.Len),
+		tEq(tSelect(pi, tSelect(inv, k, SInt), SInt), k), tEq(tSelect(inv, tSelect(pi, k, SInt), SInt), k))).S), SBool})
 	st.ghost["Slice_pi"] = Sc{pi}
+	st.ghost["Slice_inv"] = Sc{inv}
 	return Tu{}, true
 }
